@@ -256,6 +256,7 @@ def mainInputOf (j : Json) : Except String MainInput := do
   let name ← getStr j "name"
   let inp ← match kind with
     | "missing" => pure (Input.missing name)
+    | "special" => pure (Input.special name)
     | "file" => pure (Input.file name (← getStr j "content"))
     | "dir" => pure (Input.dir name (← (← (← j.getObjVal? "children").getArr?).toList.mapM fsNodeOf))
     | k => throw s!"bad input kind {k}"
